@@ -120,6 +120,10 @@ class EPModel(KModel):
                     return not is_query
         if isinstance(a, Num) and isinstance(b, Num) and getattr(self, 'loop_counter', None) and str(a.r) == self.loop_counter and b.const() == 0 and op == 'gt':
             return True       # the inductive step of a counting loop runs under its condition
+        if isinstance(a, Num) and isinstance(b, Num) and getattr(self, 'loop_counter', None) and str(a.r) == self.loop_counter and op == 'lt' and \
+                self.loop_counter not in b.r.atoms():
+            self.loop_bound = b.r     # `while c < N`: counts up to N
+            return True
         return super().compare(op, a, b, e)
 
     def _refine(self, a, b):
@@ -200,6 +204,18 @@ class EPModel(KModel):
                 a0.d['dim'] = Dim(a0.d['dim'].items + more.items)
                 return Unit()
             raise Unsupported("a vector of lengths extended with something that is not a shape", e)
+        if name in ('std::vec::Vec::new', 'std::vec::Vec::with_capacity', 'alloc::vec::Vec::new', 'alloc::vec::Vec::with_capacity') and \
+                'Vec<usize' in ((e or {}).get('ty') or ''):
+            return Obj('dimseq', dim=Dim([]))                  # a vector of axis lengths being assembled
+        if name in ('std::vec::Vec::push', 'alloc::vec::Vec::push') and isinstance(a0, Obj) and a0.kind == 'dimseq' and isinstance(a0.d['dim'], Dim):
+            el = deref_all(args[1])
+            if isinstance(el, Obj) and el.kind == 'dimelem':
+                self._dim_pushes = getattr(self, '_dim_pushes', []) + [(a0, el)]
+                return Unit()
+            if isinstance(el, Num) and el.const() is None and len(el.r.atoms()) == 1:
+                a0.d['dim'] = Dim(a0.d['dim'].items + [('s', str(el.r))])
+                return Unit()
+            raise Unsupported("push of %r onto a vector of axis lengths" % (el,), e)
         if last == 'index' and name.startswith('ndarray::Axis') and isinstance(a0, Enum) and a0.adt == 'ndarray::Axis':
             return a0.fields['0']
         if name == 'std::iter::Iterator::map' and isinstance(a0, Obj) and a0.kind in ('indexed_iter', 'query_iter', 'query_zip', 'query_map'):
@@ -341,6 +357,15 @@ class EPModel(KModel):
             return Obj('axis_iter_mut', of=v)       # outer_iter_mut() is axis_iter_mut(Axis(0))
         if last in ('slice_each_axis_mut', 'slice_each_axis'):
             return self.slice_each_axis(v, args[1], e)
+        if last == 'slice_axis_inplace' and self.scn.get('axis_class'):
+            ax = deref_all(args[1])
+            sl = deref_all(args[2])
+            if not (isinstance(ax, Enum) and ax.adt == 'ndarray::Axis' and isinstance(deref_all(ax.fields['0']), Num) and str(deref_all(ax.fields['0']).r) == 'nr'
+                    and isinstance(sl, Obj) and sl.kind == 'slice'):
+                raise Unsupported("slice_axis_inplace on something other than the axis the loop is at", e)
+            self._axis_slices = getattr(self, '_axis_slices', {})
+            self._axis_slices[self.scn['axis_class']] = (v, sl)
+            return Unit()
         if last == 'slice_each_axis_inplace':
             nv = self.slice_each_axis(v, args[1], e)
             v.d.clear()
@@ -393,7 +418,9 @@ class EPModel(KModel):
                 raise Unsupported("slice_each_axis_mut closure does not return a Slice", e)
             res[cls] = r
         self.scn.pop('axis_class', None)
-        q, t = res['query'], res['trailing']
+        return self._unit_slice_view(v, res['query'], res['trailing'], e)
+
+    def _unit_slice_view(self, v, q, t, e):
         idx = Rat.atom('e[nr]')
         ok_q = (q.d['start'] is not None and isinstance(q.d['start'], Num) and q.d['start'].r == idx and
                 isinstance(q.d['end'], Num) and q.d['end'].r == idx + 1)
@@ -459,34 +486,47 @@ class EPModel(KModel):
                 if isinstance(v, Obj) and v.kind == 'view' and v.d.get('lead') == 'qidx-unit' and k not in views:
                     views[k] = (f, v)
             f = f.parent
-        if not cands or not views:
+        if not cands:
             raise Unsupported("loop (the rules never unroll loops; this one is not a counting loop over views)", e)
+        if not views:
+            return self._axis_loop(body, frame, cands, e)
         entry = {k: v for k, (f, v) in cands.items()}
-        for k, (f, v) in cands.items():
-            f.vars[k] = Num(Rat.atom('loopc:' + k))
+        view_entry = {vk: f.vars[vk] for vk, (f, v0) in views.items()}
         changed = []
+        self.loop_bound = None
         for k in cands:
+            # one candidate counter at a time; everything else keeps its value
+            for k2, (f2, v2) in cands.items():
+                f2.vars[k2] = entry[k2]
+            for vk, (f, v0) in views.items():
+                f.vars[vk] = view_entry[vk]
+            cands[k][0].vars[k] = Num(Rat.atom('loopc:' + k))
             self.loop_counter = 'loopc:' + k
             lf = Frame(frame)
             try:
                 self.interp.eval(body, lf)
-            except BreakEx:
-                for k2, (f2, v2) in cands.items():
-                    f2.vars[k2] = entry[k2]
+            except (BreakEx, Unsupported):
                 continue
             finally:
                 self.loop_counter = None
             now = cands[k][0].vars[k]
             if isinstance(now, Num) and (now.r - Rat.atom('loopc:' + k)) == Rat.const(-1):
-                changed.append(k)
+                changed.append((k, entry[k].r, Num(0)))
                 break
-            raise Unsupported("loop whose counter does not step by -1", e)
+            if isinstance(now, Num) and (now.r - Rat.atom('loopc:' + k)) == Rat.const(1) and getattr(self, 'loop_bound', None) is not None:
+                changed.append((k, self.loop_bound - entry[k].r, Num(self.loop_bound)))
+                self.loop_bound = None
+                break
+            raise Unsupported("loop whose counter does not step by one towards its bound", e)
         if len(changed) != 1:
-            raise Unsupported("loop without a single counter", e)
-        k = changed[0]
-        trip = entry[k].r
+            for k2, (f2, v2) in cands.items():
+                f2.vars[k2] = entry[k2]
+            for vk, (f, v0) in views.items():
+                f.vars[vk] = view_entry[vk]
+            return self._axis_loop(body, frame, cands, e)
+        k, trip, final = changed[0]
         for kk, (f, v) in cands.items():
-            f.vars[kk] = entry[kk] if kk != k else Num(0)
+            f.vars[kk] = entry[kk] if kk != k else final
         for vk, (f, v0) in views.items():
             v1 = f.vars[vk]
             if isinstance(v1, Obj) and v1.kind == 'view':
@@ -494,8 +534,57 @@ class EPModel(KModel):
                 v1.d['ones'] = v0.d['ones'] + trip * delta
         return Unit()
 
+    def _axis_loop(self, body, frame, cands, e):
+        """`while nr < view.ndim() { view.slice_axis_inplace(Axis(nr), <slice for axis nr>); nr += 1 }`: what slice_each_axis_inplace does,
+        spelled as a loop over the axis numbers - evaluated once per class of axis (query / trailing) with a symbolic axis number"""
+        zero = [k for k, (f, v) in cands.items() if v.const() == 0]
+        if len(zero) != 1:
+            raise Unsupported("loop (the rules never unroll loops; this one is not a loop over the axis numbers of a view)", e)
+        k = zero[0]
+        f0 = cands[k][0]
+        self._axis_slices = {}
+        bound = None
+        try:
+            for cls in ('query', 'trailing'):
+                self.scn['axis_class'] = cls
+                f0.vars[k] = Num(Rat.atom('nr'))
+                self.loop_counter, self.loop_bound = 'nr', None
+                self.interp.eval(body, Frame(frame))
+                now = f0.vars[k]
+                if not (isinstance(now, Num) and now.r == Rat.atom('nr') + 1 and self.loop_bound is not None):
+                    raise Unsupported("loop over axis numbers does not advance by one towards a bound", e)
+                bound = self.loop_bound
+        finally:
+            self.scn.pop('axis_class', None)
+            self.loop_counter = None
+        if set(self._axis_slices) != {'query', 'trailing'} or self._axis_slices['query'][0] is not self._axis_slices['trailing'][0]:
+            raise Unsupported("loop over axis numbers does not slice one view on every axis", e)
+        v = self._axis_slices['query'][0]
+        if not (bound == v.d['shape'].ndim()):
+            raise Unsupported("loop over axis numbers does not cover all axes of the view", e)
+        nv = self._unit_slice_view(v, self._axis_slices['query'][1], self._axis_slices['trailing'][1], e)
+        v.d.clear()
+        v.d.update(nv.d)
+        f0.vars[k] = Num(bound)
+        return Unit()
+
     def for_loop(self, iterable, pat, body, frame, e):
         it = deref_all(iterable)
+        if isinstance(it, Obj) and it.kind == 'shape':
+            it = Obj('dimseq', dim=it.d['dim'])
+        if isinstance(it, Obj) and it.kind == 'dimseq' and isinstance(it.d['dim'], Dim):
+            # `for len in lengths { v.push(*len) }`: one step with a generic element; a vector it is pushed onto grows by the whole sequence
+            elem = Obj('dimelem', of=it)
+            self._dim_pushes = []
+            if not self.interp.match_pat(pat, ValPlace(Ref(ValPlace(elem))), frame) and not self.interp.match_pat(pat, ValPlace(elem), frame):
+                raise Unsupported("loop pattern over axis lengths", e)
+            self.interp.eval(body, frame)
+            for vec, el in self._dim_pushes:
+                if el is not elem:
+                    raise Unsupported("a length from another loop pushed here", e)
+                vec.d['dim'] = Dim(vec.d['dim'].items + it.d['dim'].items)
+            self._dim_pushes = []
+            return Unit()
         if isinstance(it, Obj) and it.kind == 'dimseq' and isinstance(it.d['dim'], Obj) and it.d['dim'].kind == 'qidx':
             # `for &idx in index.slice()`: one inductive step over the components of the element's own index; a view indexed at the
             # component on its leading axis in every step ends as the element's sub-view once all query axes are consumed
